@@ -25,18 +25,19 @@ const (
 
 // G is one simulated goroutine.
 type G struct {
-	ID     int
-	Name   string
-	state  int
-	cond   func() bool
-	idle   bool // runnable only when no non-idle goroutine is runnable
-	alt    bool // cond waiter that also wakes (with idle priority) when the world is stuck
-	reason string
-	wake   chan struct{}
-	prio   int
-	abort  bool
-	Daemon bool // harness helper; ignored by leak accounting
-	run    int  // fair phase: plain yields since this goroutine was last parked
+	ID       int
+	Name     string
+	state    int
+	cond     func() bool
+	idle     bool      // runnable only when no non-idle goroutine is runnable
+	alt      bool      // cond waiter that also wakes (with idle priority) when the world is stuck
+	altLimit time.Time // ... and the end of its horizon: shorter horizons are woken first
+	reason   string
+	wake     chan struct{}
+	prio     int
+	abort    bool
+	Daemon   bool // harness helper; ignored by leak accounting
+	run      int  // fair phase: plain yields since this goroutine was last parked
 }
 
 func (g *G) String() string { return fmt.Sprintf("g%d(%s)", g.ID, g.Name) }
@@ -52,18 +53,18 @@ const (
 
 // Config of one run. Everything that influences the run is in here.
 type Config struct {
-	Seed       uint64
-	Strategy   Strategy
-	Stick      float64 // StratRandom: probability that a plain yield does not switch
-	PCTDepth   int     // StratPCT: number of priority change points
-	PCTSpan    int     // StratPCT: change points are drawn in [0,PCTSpan)
-	MaxSteps   int     // hard budget of scheduling steps (context switches + yields)
-	SpinLimit  int     // fair phase: steps without progress (NoteProgress) that count as a livelock (0: 30000)
-	TimeJump   float64 // probability per park that time jumps to the next timer although goroutines are runnable
+	Seed        uint64
+	Strategy    Strategy
+	Stick       float64       // StratRandom: probability that a plain yield does not switch
+	PCTDepth    int           // StratPCT: number of priority change points
+	PCTSpan     int           // StratPCT: change points are drawn in [0,PCTSpan)
+	MaxSteps    int           // hard budget of scheduling steps (context switches + yields)
+	SpinLimit   int           // fair phase: steps without progress (NoteProgress) that count as a livelock (0: 30000)
+	TimeJump    float64       // probability per park that time jumps to the next timer although goroutines are runnable
 	TimeJumpMax time.Duration // such a jump happens only if the next timer is at most this far away (0: any distance)
-	SiteProb   float64 // fraction of function-entry yield sites that are active
-	Trace      bool    // keep a textual event log
-	TraceLimit int
+	SiteProb    float64       // fraction of function-entry yield sites that are active
+	Trace       bool          // keep a textual event log
+	TraceLimit  int
 }
 
 // Result of one run.
@@ -89,7 +90,7 @@ type Result struct {
 type simTimer struct {
 	when time.Time
 	seq  uint64
-	f    func()        // AfterFunc style (runs in a new simulated goroutine)
+	f    func()         // AfterFunc style (runs in a new simulated goroutine)
 	ch   chan time.Time // NewTimer / After style
 	name string
 	live bool
@@ -854,6 +855,31 @@ func (s *Sched) runnable() (norm []*G, idle []*G) {
 	return
 }
 
+// stuckOrder narrows the candidates of a stuck world. A WaitStuck waiter is somebody who will
+// act when the world is stuck (a closer that waits for "the point where nothing else
+// happens"); a goroutine in Idle / Quiesce, and a WaitStuck waiter with a longer horizon, wait
+// for "nobody is going to act any more". So the waiters with the shortest horizon go first,
+// and Idle callers only when there is no such waiter left - otherwise a harness could judge a
+// run while one of its own actors has not had its turn.
+func stuckOrder(idle []*G) []*G {
+	var first []*G
+	for _, g := range idle {
+		if !g.alt {
+			continue
+		}
+		switch {
+		case len(first) == 0 || g.altLimit.Before(first[0].altLimit):
+			first = append(first[:0], g)
+		case g.altLimit.Equal(first[0].altLimit):
+			first = append(first, g)
+		}
+	}
+	if len(first) > 0 {
+		return first
+	}
+	return idle
+}
+
 func (s *Sched) pick(c []*G) *G {
 	if len(c) == 1 {
 		return c[0]
@@ -912,7 +938,7 @@ func (s *Sched) loop(root func()) {
 		case len(norm) > 0:
 			g = s.pick(norm)
 		case len(idle) > 0:
-			g = s.pick(idle)
+			g = s.pick(stuckOrder(idle))
 		default:
 			if s.advance() {
 				continue
@@ -1110,7 +1136,6 @@ func Quiesce(horizon time.Duration) {
 	}
 }
 
-
 // WaitStuck parks until cond holds (returns true) or until the world is stuck: nothing
 // else is runnable and no timer is due within the horizon (returns false).
 func WaitStuck(reason string, horizon time.Duration, cond func() bool) bool {
@@ -1135,6 +1160,7 @@ func WaitStuck(reason string, horizon time.Duration, cond func() bool) bool {
 		g.cond = cond
 		g.idle = false
 		g.alt = true
+		g.altLimit = limit
 		g.reason = reason
 		g.state = stParked
 		s.mu.Unlock()
